@@ -174,22 +174,32 @@ func specCacheOK(tablesMaps map[uint64]*tableCache) bool {
 		vcWatchTM.Database == vcWatchDB && vcWatchTM.Name == vcWatchName
 }
 
-func vc_Streamer_parseEvents_loop1_inv(pos Position, autocommit bool, tranEvents []*StreamEvent, tablesMaps map[uint64]*tableCache) bool {
-	return specCacheOK(tablesMaps) &&
-		// every cache entry is complete (a table map and a mapper table)
-		vspec.ForallKeys(tablesMaps, func(id uint64) bool {
-			tc, ok := tablesMaps[id]
-			// ... is an object of its own, made by this call (no two ids share an entry)
-			return !ok || (tc != nil && tc.tableMap != nil && tc.table != nil && vspec.Owned(tc) &&
-				(id == vcWatchID || tc != vcWatchTC))
-		}) &&
-		vspec.Owned(tranEvents) && // the buffer is never memory that existed before the call,
-		// C08: nor memory that was handed to the handler: it is nil or was allocated after the last delivery
-		vcDelivered <= vspec.Watermark() && (tranEvents == nil || vspec.BaseOf(tranEvents) > vcDelivered) &&
-		pos == vcAcc && // C04: the position to resume from is the accepted boundary
-		autocommit == !vcOpen && // C02: grouping state
-		len(tranEvents) == vcBuf && (vcOpen || vcBuf == 0) &&
-		!vcCalled && vcGood
+// The loop invariant, in parts (each part is its own obligation; their conjunction is assumed at the loop head).
+
+// C04, C02: the position to resume from is the accepted boundary; grouping state; nothing pending
+func vc_Streamer_parseEvents_loop1_inv(pos Position, autocommit bool, tranEvents []*StreamEvent) bool {
+	return pos == vcAcc && autocommit == !vcOpen && len(tranEvents) == vcBuf && (vcOpen || vcBuf == 0) && !vcCalled && vcGood
+}
+
+// C15: the watched cache entry
+func vc_Streamer_parseEvents_loop1_inv_cache(tablesMaps map[uint64]*tableCache) bool {
+	return specCacheOK(tablesMaps)
+}
+
+// every cache entry is complete (a table map and a mapper table), an object of its own made by this call, and no
+// two ids share an entry
+func vc_Streamer_parseEvents_loop1_inv_entries(tablesMaps map[uint64]*tableCache) bool {
+	return vspec.ForallKeys(tablesMaps, func(id uint64) bool {
+		tc, ok := tablesMaps[id]
+		return !ok || (tc != nil && tc.tableMap != nil && tc.table != nil && vspec.Owned(tc) &&
+			(id == vcWatchID || tc != vcWatchTC))
+	})
+}
+
+// C08: the buffer is never memory that existed before the call, nor memory that was handed to the handler: it is nil
+// or was allocated after the last delivery
+func vc_Streamer_parseEvents_loop1_inv_buffer(tranEvents []*StreamEvent) bool {
+	return vspec.Owned(tranEvents) && vcDelivered <= vspec.Watermark() && (tranEvents == nil || vspec.BaseOf(tranEvents) > vcDelivered)
 }
 
 // ---- what the handler is given (C02, C03), checked at the only call site ----
